@@ -306,15 +306,13 @@ func MakeSignatureContent(
 			dargT :=
 				GetValueT(frame, class, methodT.GetMethodName(), darg, methodT.IsStatic)
 
-			// *a or **a
-			if darg[0] == '*' {
-				switch darg[1] {
-				case '*':
-					dargT = MakeDoubleAsteriskKeyValue()
+			// *a or **a (also the anonymous forms * and **)
+			switch {
+			case strings.HasPrefix(darg, "**"):
+				dargT = MakeDoubleAsteriskKeyValue()
 
-				default:
-					dargT = MakeAsteriskUntyped()
-				}
+			case strings.HasPrefix(darg, "*"):
+				dargT = MakeAsteriskUntyped()
 			}
 
 			args += TypeToStringForSignature(dargT)
